@@ -208,7 +208,7 @@ theorem processToken_split {a b : Str} (ha : a ≠ []) (hb : b ≠ []) (l l1 l2 
   simp only
   have hs2 : Sim t (upd t tr' t.currentLine t.dom.errorsRev t.pendingTableText) := sim_upd_self hst.right tr'
   have hs12 := (hs1.symm.trans hst).trans hs2
-  refine (processTokenRest_resp inTableText_ok (.chars (a ++ b)) _ _ hs12).trans ?_
+  refine (processTokenRest_resp inTableText_ok flushText_ok (.chars (a ++ b)) _ _ hs12).trans ?_
   exact processTokenRest_split ha hb l2 hs2.symm.good
 
 end H5V.Lemmas.TBSplit
